@@ -253,7 +253,7 @@ def r5(ctx):
     ctx.sub(c08.r6, only=("commit:in-loop",))    # each refill is committed to the working state through the label setter
     from . import c09
     from . import c14
-    ctx.sub(c14.r2, only=("producer:", "consumer:"))    # task k is built from cluster k's covariance and its result is stored for cluster k
+    ctx.sub(c14.r2, only=("producer:", "consumer:", "unordered:"))    # task k is built from cluster k's covariance and its result is stored for cluster k
     c09.lifecycle(ctx, {"fresh-stats"})    # nothing relabels between the statistics phase and the optimiser: repopulate -> statistics -> optimise
 
 
